@@ -15,7 +15,7 @@ CONSTANTS
     REKEEP = TRUE
     MAXSAVES = 2
     ImportCleans = TRUE
-    UnmarshalMode = "merge"
+    UnmarshalMode = "replace"
     LoadSkipsBad = TRUE
 INVARIANT RotTypeOK
 PROPERTY RotSteps
